@@ -355,6 +355,39 @@ def replay_state(state):
                 el.additionalProperties = saved
         except Exception as exc:  # noqa
             obs["reconf_err"] = type(exc).__name__ + ": " + str(exc)[:120]
+    # the element used, then a REQUIRED property without a default is given one in place
+    # (prop.element.default = d): omitted values must now be filled (the requirement is waived),
+    # as the document with that default says (seed documents, plain object hosts)
+    if state.get("src") == "seed" and isinstance(sj, dict) and isinstance(sj.get("properties"), dict) \
+            and not any(k in sj for k in ("anyOf", "oneOf", "allOf", "not")) \
+            and not isinstance(sj.get("type"), list) and sj.get("type", "object") == "object":
+        try:
+            DEF = {"string": "d", "integer": 7, "number": 1.5, "boolean": True, "null": None}
+            pick = next((n for n, ps in sj["properties"].items()
+                         if n in sj.get("required", []) and isinstance(ps, dict) and "default" not in ps
+                         and ps.get("type") in DEF and set(ps) <= {"type"}), None)
+            if pick is not None and hasattr(el, "properties"):
+                attr = next(a for a, p_ in el.properties.items() if p_.source == pick)
+                pe = el.properties[attr].element
+                pe.default = DEF[sj["properties"][pick]["type"]]
+                try:
+                    d2 = copy.deepcopy(sj)
+                    d2["properties"][pick]["default"] = DEF[sj["properties"][pick]["type"]]
+                    obs["later_default_doc"] = d2
+                    obs["later_default_src"] = pick
+                    obs["later_default_calls"] = [_obs_call(el, v, probe=False) for v in pyvals]
+                    dobs2 = []
+                    for src2, ps2 in d2["properties"].items():      # every defaulted property, document order
+                        if isinstance(ps2, dict) and "default" in ps2:
+                            k6, pel = drive.parse_labelled(ps2)
+                            dobs2.append((src2, _obs_call(pel, ps2["default"], probe=False) if k6 == "ok"
+                                          else {"kind": "parse:" + k6, "out": None}))
+                    obs["later_default_dobs"] = dobs2
+                finally:
+                    from statham.schema.constants import NotPassed as _NP
+                    pe.default = _NP()
+        except Exception as exc:  # noqa
+            obs["later_default_err"] = type(exc).__name__ + ": " + str(exc)[:120]
     # the same (labelled) document dictionary parsed a second time, as happens to a sub-document
     # that several references share: the second parse must describe the same schema
     if state.get("dobs") or (isinstance(sj, dict) and "default" in json.dumps(sj)):
